@@ -2,6 +2,7 @@ package monitor
 
 import (
 	"context"
+	"time"
 
 	"github.com/gopcua/opcua"
 	"github.com/gopcua/opcua/ua"
@@ -108,7 +109,36 @@ func VerifH_C28_HandleToNode() {
 	v := int32(vfU32("value"))
 	armed = &ua.PublishResponse{ResponseHeader: opcua.VfResponseHeader(), SubscriptionID: 5, NotificationMessage: &ua.NotificationMessage{SequenceNumber: 1,
 		NotificationData: []*ua.ExtensionObject{ua.NewExtensionObject(&ua.DataChangeNotification{MonitoredItems: []*ua.MonitoredItemNotification{{ClientHandle: h, Value: &ua.DataValue{EncodingMask: ua.DataValueValue, Value: ua.MustVariant(v)}}}})}}}
-	msg := <-ch
+	// optionally the same notification carries, in front of it, an entry for a handle the
+	// monitor does not know (e.g. an item removed a moment ago): both entries are delivered
+	two := vfConcrete(vfInt("staleEntryFirst", 0, 1)) == 1
+	if two {
+		dcn := armed.NotificationMessage.NotificationData[0].Value.(*ua.DataChangeNotification)
+		dcn.MonitoredItems = append([]*ua.MonitoredItemNotification{{ClientHandle: 5, Value: &ua.DataValue{EncodingMask: ua.DataValueValue, Value: ua.MustVariant(int32(1))}}}, dcn.MonitoredItems...)
+	}
+	recv := func() *DataChangeMessage {
+		select {
+		case m := <-ch:
+			return m
+		case <-time.After(5 * time.Second):
+			vfAssert(false, "a reported data change is never delivered to the application")
+			return nil
+		}
+	}
+	msg := recv()
+	if msg == nil {
+		return
+	}
+	if two {
+		vfAssert(msg.Error != nil || msg.NodeID == nil, "an entry for an unknown client handle is delivered as a node's value")
+		vfSettle()
+		vfAssert(len(ch) >= 1, "the entries that follow one for an unknown client handle in the same notification are not delivered")
+		if len(ch) == 0 {
+			return
+		}
+		msg = <-ch
+		vfReach("afterStale")
+	}
 	if want != nil && want.live {
 		vfAssert(msg.Error == nil && msg.NodeID != nil && msg.NodeID.String() == want.node, "a data change is delivered under another node id than the one registered for its client handle")
 		got, ok := msg.Value.Value().(int32)
